@@ -148,6 +148,14 @@ def _one(sc, r):
     argn = (0, 1) if mu_is_arr else (0,)
     g_ref_f = jax.jit(jax.value_and_grad(make_loss(b_ckp), argnums=argn))
     v_ref, g_ref = g_ref_f(ie, im)
+    # natural scales for the case "reference gradient exactly zero"
+    _, out_plain = jax.jit(lambda a: fdtdx.run_fdtd(arrays=a, objects=b_ckp["objects"], config=b_ckp["config"], key=key, show_progress=False))(
+        b_ckp["arrays"].aset("inv_permittivities", ie)
+    )
+    cmax = max([float(jnp.abs(c).max()) for c in cots.values()] + [0.0])
+    omax = max([float(jnp.abs(out_plain.detector_states[dn][kk]).max()) for (dn, kk) in cots] + [0.0])
+    fmax = max(float(jnp.abs(out_plain.fields.E).max()), 376.73 * float(jnp.abs(out_plain.fields.H).max()))
+    zero_ref_floor = 1e-9 * cmax * omax + 1e-12 * cmax * fmax**2
     with hooks.trace_forward() as log:
         g_rev_f = jax.jit(jax.value_and_grad(make_loss(b_rev), argnums=argn))
         v_rev, g_rev = g_rev_f(ie, im)
@@ -195,10 +203,16 @@ def _one(sc, r):
             r.violate(f"reversible gradient w.r.t. {names[i]} is not finite", wit, sig=sig)
             continue
         if scale == 0:
-            if float(np.abs(gv).max()) == 0:
+            # the reference is exactly zero (the detectors saw nothing yet): the reversible gradient may carry the
+            # round-off residue of the reverse reconstruction (observed 5e-38 for |E| ~ 3e-4), nothing more
+            if float(np.abs(gv).max()) <= zero_ref_floor:
                 r.ok(None)
             else:
-                r.violate(f"reference gradient {names[i]} is zero but reversible one is not", wit, sig=sig)
+                r.violate(
+                    f"reference gradient {names[i]} is zero but reversible one is not",
+                    {**wit, "max_abs_reversible": float(np.abs(gv).max()), "floor": zero_ref_floor},
+                    sig=sig,
+                )
             continue
         diff = np.abs(gv - gr)
         err = float(diff.max()) / scale
